@@ -188,6 +188,10 @@ var dumpMu sync.Mutex
 
 // solveScript runs one solver process on the script. Any "(error" line makes the answer "error".
 func solveScript(smt string, vars []*Term, solver string, timeout int) (string, map[string]uint64, time.Duration) {
+	return solveScriptCancel(smt, vars, solver, timeout, nil)
+}
+
+func solveScriptCancel(smt string, vars []*Term, solver string, timeout int, cancel chan struct{}) (string, map[string]uint64, time.Duration) {
 	if DumpDir != "" {
 		dumpMu.Lock()
 		dumpN++
@@ -204,7 +208,24 @@ func solveScript(smt string, vars []*Term, solver string, timeout int) (string, 
 	}
 	cmd := exec.Command(solver, args...)
 	cmd.Stdin = strings.NewReader(smt)
-	out, _ := cmd.Output()
+	var outBuf strings.Builder
+	cmd.Stdout = &outBuf
+	if err := cmd.Start(); err != nil {
+		return "error", nil, 0
+	}
+	done := make(chan struct{})
+	if cancel != nil {
+		go func() {
+			select {
+			case <-cancel:
+				cmd.Process.Kill()
+			case <-done:
+			}
+		}()
+	}
+	cmd.Wait()
+	close(done)
+	out := []byte(outBuf.String())
 	d := time.Since(t0)
 	text := strings.TrimSpace(string(out))
 	lines := strings.Split(text, "\n")
@@ -248,6 +269,63 @@ func solveScript(smt string, vars []*Term, solver string, timeout int) (string, 
 		}
 	}
 	return res, m, d
+}
+
+// namedScript rewrites the macro-style script (define-fun per shared node) into declared constants with defining
+// equalities; some formulas (deep, heavily shared DAGs) are decided orders of magnitude faster in this form.
+func namedScript(smt string) string {
+	var sb strings.Builder
+	for _, line := range strings.Split(smt, "\n") {
+		if strings.HasPrefix(line, "(define-fun n") {
+			// (define-fun nX () SORT BODY)
+			rest := line[len("(define-fun "):]
+			sp := strings.Index(rest, " () ")
+			name := rest[:sp]
+			rest = rest[sp+4:]
+			var sort, body string
+			if strings.HasPrefix(rest, "Bool ") {
+				sort, body = "Bool", rest[5:len(rest)-1]
+			} else {
+				k := strings.Index(rest, ") ")
+				sort, body = rest[:k+1], rest[k+2:len(rest)-1]
+			}
+			fmt.Fprintf(&sb, "(declare-const %s %s)\n(assert (= %s %s))\n", name, sort, name, body)
+			continue
+		}
+		sb.WriteString(line)
+		sb.WriteString("\n")
+	}
+	return sb.String()
+}
+
+// solvePortfolio runs z3 5.1 on the macro-style script and z3 4.8.12 on the named-constant script concurrently and
+// returns the first definite answer (both are complete decision procedures for QF_BV; they differ only in speed).
+func solvePortfolio(smt string, vars []*Term, timeout int) (string, map[string]uint64, time.Duration, string) {
+	type res struct {
+		r   string
+		m   map[string]uint64
+		d   time.Duration
+		who string
+	}
+	ch := make(chan res, 2)
+	ctx := make(chan struct{})
+	run := func(solver, script, who string) {
+		r, m, d := solveScriptCancel(script, vars, solver, timeout, ctx)
+		ch <- res{r, m, d, who}
+	}
+	go run("z3-new", smt, "z3-5.1")
+	go run("z3", namedScript(smt), "z3-4.8.12")
+	first := <-ch
+	if first.r == "sat" || first.r == "unsat" {
+		close(ctx)
+		return first.r, first.m, first.d, first.who
+	}
+	second := <-ch
+	close(ctx)
+	if second.r == "sat" || second.r == "unsat" {
+		return second.r, second.m, second.d, second.who
+	}
+	return first.r, first.m, first.d, first.who
 }
 
 // crossCheck re-solves the script with z3 4.8.12 and cvc5; a different definite answer is a disagreement.
